@@ -534,6 +534,9 @@ type LitPat struct {
 }
 
 func atomMatch(pat, atom string) bool {
+	if strings.Count(pat, "*") > 0 && globMatch(pat, atom) {
+		return true
+	}
 	pre, suf := strings.HasPrefix(pat, "*"), strings.HasSuffix(pat, "*")
 	switch {
 	case pre && suf && len(pat) >= 2:
